@@ -353,7 +353,7 @@ fn big_header() -> BoxedStrategy<Header> {
         .boxed()
 }
 
-fn rand_oracle(c: &Rand, obs: &mut Obs) -> Check {
+pub fn rand_oracle(c: &Rand, obs: &mut Obs) -> Check {
     let src = print(&c.nodes);
     if src.contains("limit:") || src.contains("offset:") || src.contains("reversed") || src.contains("break") || src.contains("continue") {
         obs.nt(&(src, c.data.dump()));
@@ -398,4 +398,17 @@ pub fn run(ctx: &Ctx) {
     ctx.exhaustive("multi_key_objects", 7 * 10 * 10 * 2 * 2, multi_key_nth, multi_key_oracle);
     ctx.random("big_headers", ctx.pick(150_000, 3_000_000), big_header, header_oracle);
     ctx.random("programs", ctx.pick(150_000, 6_000_000), rand_strategy, rand_oracle);
+}
+
+/// Byte-driven twin of `rand_strategy` (engine E6b, see astdec.rs).
+pub fn fuzz_case(d: &mut crate::astdec::Dec) -> Rand {
+    let mut arr = |d: &mut crate::astdec::Dec, max: usize| {
+        let n = d.below(max + 1);
+        RV::Arr((0..n).map(|_| RV::Int(d.range(0, 100))).collect())
+    };
+    let x = arr(d, 40);
+    let y = arr(d, 6);
+    let z = d.range(0, 45);
+    let nodes = d.nodes(&rand_cfg(), 5);
+    Rand { nodes, data: obj(vec![("x", x), ("y", y), ("z", RV::Int(z)), ("i", RV::Int(-1)), ("j", RV::Int(-2))]) }
 }
